@@ -226,7 +226,11 @@ unsafe impl GlobalAlloc for SimAlloc {
     #[inline]
     unsafe fn realloc(&self, ptr: *mut u8, layout: Layout, new_size: usize) -> *mut u8 {
         if let Some(i) = find(ptr) {
-            ST.with(|s| (*s.c.get()).reallocs += 1);
+            // growth of the panic runtime's message buffer happens while the thread already counts
+            // as panicking: tracked, but not a request of the library
+            if !std::thread::panicking() {
+                ST.with(|s| (*s.c.get()).reallocs += 1);
+            }
             let (old_size, old_align, state) = ST.with(|s| {
                 let r = &(*s.recs.get())[i];
                 (r.size, r.align, r.state)
